@@ -722,3 +722,92 @@ def eof_means_end(ctx):
                 ctx.ok(key, f.loc(rb), 'the unit read count is only returned under n > 0; zero falls through to the next unit / end handling')
     if n_inst == 0:
         ctx.anchor_missing('unit reads in container/MT readers')
+
+
+@rule('SINK-ERR-STICKY', ['C09', 'C05'], floor=2)
+def sink_err_sticky(ctx):
+    """In a multi-threaded writer a compressed unit is taken out of the reorder buffer (and the sequence counter
+    advanced) before it is written to the sink; if that write fails the unit is gone. The failure must
+    therefore be sticky: on the Err edge of every sink write made through `&mut self` the writer's state is
+    moved to its error state before the error is returned, so that a later finish()/flush()/write() fails
+    instead of completing a stream with the unit missing."""
+    from rules.io import is_trait_call, WRITE_TRAITS, value_closure
+    F = ctx.facts
+    cs = coordinator_fns(F)
+    n = 0
+    for cf, _ in cs:
+        adt = cf.self_adt
+        if not adt or not any(g.self_adt == adt and g.impl and last_seg(g.impl.get('trait')) == 'Write' for g in F.fns):
+            continue
+        ev, sty = _error_variant(F, cf)
+        if ev is None:
+            ctx.violation('%s:no-error-state' % cf.key, cf.loc(0), 'cannot find the writer\'s error state (fail closed)')
+            continue
+        vname = None
+        for p, a in F.adts.items():
+            if last_seg(p) == sty and a['kind'] == 'enum' and p.rsplit('::', 1)[0] in cf.path:
+                for v in a['variants']:
+                    if v['idx'] == ev:
+                        vname = v['name']
+        for f in F.fns:
+            if f.self_adt != adt or f.kind == 'closure':
+                continue
+            if not (f.arg_count >= 1 and f.local_ty(1).startswith('&mut')):
+                continue   # by-value self (finish): the writer is consumed, nothing can be called afterwards
+            prov = None
+            cnt = 0
+            for bi, t, c in f.calls():
+                if not any(is_trait_call(c, WRITE_TRAITS, nm) for nm in ('write', 'write_all', 'flush')) or not t['args']:
+                    continue
+                prov = prov or Prov(f)
+                recv = prov.operand(t['args'][0], 0, '%d:T' % bi)
+                if not any(x[0] == 'field' and self_field_of(x) for x in expr_walk(recv)):
+                    continue
+                if c.name == 'flush':
+                    continue   # nothing has been consumed by a flush
+                n += 1
+                cnt += 1
+                key = '%s:sink-%s%s' % (f.key, c.name, '' if cnt == 1 else '#%d' % cnt)
+                holders = value_closure(f, {t['dest']['l']})
+                err_targets = []
+                for s in f.reachable:
+                    tt = f.blocks[s]['term']
+                    if tt['k'] != 'switch':
+                        continue
+                    dl = op_local(tt['discr'])
+                    dd = f.whole_defs(dl) if dl is not None else []
+                    if len(dd) == 1 and dd[0][2] == 'assign' and dd[0][3]['rv']['r'] == 'discr':
+                        dp = dd[0][3]['rv']['p']
+                        hit = dp['l'] in holders and not dp['p']
+                        if not hit and dp['p'] == ['*']:
+                            # `if let Err(e) = &result`: the discriminant is read through a reference to the Result
+                            for (rb, rs, rk, rnode) in f.whole_defs(dp['l']):
+                                if rk == 'assign' and rnode['rv']['r'] == 'ref' and rnode['rv']['p']['l'] in holders and not rnode['rv']['p']['p']:
+                                    hit = True
+                        if hit:
+                            for a in tt['arms']:
+                                if int(a[0]) == 1:
+                                    err_targets.append(a[1])
+                if not err_targets:
+                    # the Result is returned as it is (tail call): the caller's arm is checked there
+                    if 0 in holders:
+                        ctx.info(key + ':returned', f.loc(bi), 'Result returned unchanged')
+                        n -= 1
+                        continue
+                    ctx.violation(key, f.loc(bi), 'cannot find the Err edge of the sink write (fail closed)')
+                    continue
+                errst = set()
+                for b2, si, name, rv in self_field_stores(f):
+                    e = prov.rvalue(rv, 0, '%d:%d' % (b2, si))
+                    if e[0] == 'agg' and str(e[1]) == 'adt:%s::%s' % (sty, vname):
+                        errst.add(b2)
+                region = f.reach_from(err_targets, stop=errst)
+                leaks = [b for b in region if f.blocks[b]['term']['k'] == 'return']
+                if leaks:
+                    ctx.violation(key, f.loc(bi), 'a failed write of a compressed unit to the sink is returned without moving the writer to '
+                                  'its error state (%s::%s): the unit has already been removed from the reorder buffer, a later finish() '
+                                  'completes the stream without it and reports success' % (sty, vname))
+                else:
+                    ctx.ok(key, f.loc(bi), 'the Err edge sets %s::%s before returning' % (sty, vname))
+    if n == 0:
+        ctx.anchor_missing('sink writes in the multi-threaded writers')
